@@ -377,6 +377,9 @@ func runC05(c C05Case, cs *kit.CaseStats) error {
 				// track what the pool now reports for these ids (proofs at tip)
 				for i := range set1 {
 					id := set1[i].ID()
+					if onBest[id] {
+						continue // already confirmed when it was submitted: never pooled, nothing promised
+					}
 					if trackedByID[id] == nil {
 						t := set1[i]
 						tt := &trackedTxn{id: id, v1: &t, inputs: v1InputIDs(t)}
@@ -386,6 +389,9 @@ func runC05(c C05Case, cs *kit.CaseStats) error {
 				}
 				for i := range set2 {
 					id := set2[i].ID()
+					if onBest[id] {
+						continue
+					}
 					if trackedByID[id] == nil {
 						t := set2[i].DeepCopy()
 						ids, eph := v2InputIDs(t)
